@@ -355,4 +355,25 @@ theorem mapM_some_length {α β} (f : α → Option β) : ∀ (l : List α) (H :
         subst h
         simp [mapM_some_length f l bs hl]
 
+theorem mapM_isSome_iff {α β} (f : α → Option β) : ∀ (l : List α),
+    (l.mapM f).isSome = true ↔ ∀ a ∈ l, (f a).isSome = true
+  | [] => by simp
+  | a :: l => by
+    rw [List.mapM_cons]
+    have ih := mapM_isSome_iff f l
+    cases ha : f a with
+    | none => simp [ha]
+    | some b =>
+      cases hl : l.mapM f with
+      | none =>
+        rw [hl] at ih
+        simp only [Option.isSome_none, Bool.false_eq_true, false_iff] at ih
+        simp only [List.mem_cons, forall_eq_or_imp, ha, Option.isSome_some, true_and]
+        simpa using ih
+      | some bs =>
+        rw [hl] at ih
+        simp only [Option.isSome_some, true_iff] at ih
+        simp only [List.mem_cons, forall_eq_or_imp, ha, Option.isSome_some, true_and]
+        simpa using ih
+
 end Panqec
